@@ -161,7 +161,11 @@ class C14(Scenario):
         return {"cols": {k_: [v[0], v[1]] for k_, v in cols.items()}, "features": [":".join(f) for f in feats] + ([":".join(feats[0])] if dup else []),
                 "binning": binning,
                 "bin_specs": bin_specs, "time_axis": "t1" if use_time else "", "steps": steps, "records": [],
-                "index_mode": s.pick([None, None, "offset", "shuffled", "strings"])}
+                # the binning of the time axis as make_histograms derives it from time_width / time_offset (only the first run
+                # is told; the later ones get what that run returned)
+                "time_width": t.pick([None, None, "1w", "90d", 14 * 86400e9]) if use_time else None,
+                "time_offset": t.pick([None, None, "2019-12-30", 0]) if use_time else None,
+                "index_mode": s.pick([None, None, "offset", "shuffled", "strings", "duplicates"])}
 
     # ------------------------------------------------------------------
     def _direct(self, feature, bin_specs, var_dtype, time_axis, df, rowwise=False):
@@ -274,6 +278,9 @@ class C14(Scenario):
             labels = [(i * 7919 + 13) % max(n, 1) if math.gcd(7919, max(n, 1)) == 1 else n - 1 - i for i in range(n)]
         elif imode == "strings":
             labels = ["r%03d" % ((i * 31) % 997) + str(i) for i in range(n)]
+        elif imode == "duplicates":
+            labels = [i % 3 for i in range(n)]  # row labels are not unique (frames concatenated without ignore_index)
+            w.bump("probe_duplicate_row_labels")
         else:
             labels = None
         df = make_frame(cols, None, labels)
@@ -281,6 +288,10 @@ class C14(Scenario):
             w.bump("probe_non_range_index")
         feats = [f for f in case["features"]]
         kw = dict(binning=case["binning"], time_axis=case["time_axis"])
+        for k_ in ("time_width", "time_offset"):
+            if case.get(k_) is not None:
+                kw[k_] = case[k_]
+                w.bump("probe_time_binning_derived")
         R["shape"] = observe.obs_hash({"feats": feats, "bs": case["bin_specs"], "kw": kw, "n": n,
                                        "parts": [len(s.get("rows", [])) for s in case["steps"] if s["op"] == "chunk"]})
         frozen = None
